@@ -20,12 +20,27 @@ func NewBasicPrivateIssuer(key *oprf.PrivateKey) *BasicPrivateIssuer {
 	}
 }
 
+// privateKey returns a private copy of the token key. The key object builds its public
+// key lazily and P-384 elements are normalised in place whenever they are serialised, so
+// one key object must not be used by concurrent calls: each call works on its own copy.
+func (i *BasicPrivateIssuer) privateKey() *oprf.PrivateKey {
+	enc, err := i.tokenKey.MarshalBinary()
+	if err != nil {
+		panic(err)
+	}
+	key := new(oprf.PrivateKey)
+	if err := key.UnmarshalBinary(oprf.SuiteP384, enc); err != nil {
+		panic(err)
+	}
+	return key
+}
+
 func (i *BasicPrivateIssuer) TokenKey() *oprf.PublicKey {
-	return i.tokenKey.Public()
+	return i.privateKey().Public()
 }
 
 func (i *BasicPrivateIssuer) TokenKeyID() []byte {
-	pkIEnc, err := i.tokenKey.Public().MarshalBinary()
+	pkIEnc, err := i.privateKey().Public().MarshalBinary()
 	if err != nil {
 		panic(err)
 	}
@@ -34,7 +49,7 @@ func (i *BasicPrivateIssuer) TokenKeyID() []byte {
 }
 
 func (i BasicPrivateIssuer) Evaluate(req *BasicPrivateTokenRequest) ([]byte, error) {
-	server := oprf.NewVerifiableServer(oprf.SuiteP384, i.tokenKey)
+	server := oprf.NewVerifiableServer(oprf.SuiteP384, i.privateKey())
 
 	e := group.P384.NewElement()
 	err := e.UnmarshalBinary(req.BlindedReq)
